@@ -46,6 +46,14 @@ def check_c18(case, stats=None):
                     bucket.pop(m, None)
                 st[m] = l
                 srclen[m] = n
+        elif r.k in ("X", "F") and calls:
+            # what the library closes / frees while a call is open is remembered on that call: one refused for lack of a
+            # token must not have given up anything the caller handed in (descriptor to auto-close, user pointer to auto-free)
+            inner = max(calls.values(), key=lambda c_: c_.i)
+            if r.k == "X" and r.kind == "close" and r.fields.get("cls") == "user":
+                inner.fields.setdefault("_closed_user", []).append(r.fields.get("uidx"))
+            elif r.k == "F" and r.kind == "ud":
+                inner.fields.setdefault("_freed_ud", []).append(r.n)
         elif r.k == "B":
             if r.slot == 0 and r.kind == "evt":
                 drv_inv += 1
@@ -87,6 +95,12 @@ def check_c18(case, stats=None):
                     if b["eagain"] is None:
                         b["eagain"] = (c.t, drv_inv)
                     pend.append(c)
+                    if not c.fields.get("_nested"):
+                        if c.fields.get("_closed_user"):
+                            bad("refused-call-had-effect", "%s on module %d returned -EAGAIN but the library closed the caller's descriptor (scenario descriptor %s) during the call" % (c.op, m, c.fields["_closed_user"]), r)
+                        if c.fields.get("_freed_ud"):
+                            bad("refused-call-had-effect", "%s on module %d returned -EAGAIN but the library released the caller's user pointer (token %s) during the call" % (c.op, m, c.fields["_freed_ud"]), r)
+                        cnt("refused_calls_checked_for_ownership")
                     if c.fields.get("pay"):
                         refused_pay[c.fields["pay"]] = (c.op, m)
                 continue
